@@ -180,6 +180,22 @@ pub fn block(case: &Value) -> Value {
                 .ok()
                 .map(|v| v["signed"].clone());
             o["ret_wire"] = serde_json::to_value(&meta).unwrap_or(Value::Null);
+            if let MetadataWrapper::Layout(l) = &meta {
+                // the key table of the returned value as it is in memory (public field), independent of any writer
+                let mut ids: Vec<(String, String)> = l
+                    .keys
+                    .iter()
+                    .map(|(id, k)| {
+                        (
+                            serde_json::to_value(id).ok().and_then(|v| v.as_str().map(String::from)).unwrap_or_default(),
+                            serde_json::to_value(k.key_id()).ok().and_then(|v| v.as_str().map(String::from)).unwrap_or_default(),
+                        )
+                    })
+                    .collect();
+                ids.sort();
+                o["ret_layout_keys"] = json!(ids);
+                o["ret_layout_counts"] = json!([l.steps.len(), l.inspect.len()]);
+            }
             o["in_wire"] = wire.unwrap_or(Value::Null);
             json!("ok")
         }
